@@ -148,6 +148,8 @@ type genSpec struct {
 	kind GenKind
 	m    M
 	cond CondM
+	// unless: a KillEdge spec does not fire while this fact holds
+	unless string
 }
 
 type Flow struct {
@@ -240,6 +242,14 @@ func (fl *Flow) Edge(fact string, c CondM) *Flow {
 // with an entry fact this encodes an obligation as a fact: "no check pending".
 func (fl *Flow) KillEdge(fact string, c CondM) *Flow {
 	fl.specs = append(fl.specs, genSpec{fact: fact, kind: KillEdgeKind, cond: c})
+	fl.killable[fact] = true
+	return fl
+}
+
+// KillEdgeUnless is KillEdge, except that the fact survives when `unless` holds
+// on the edge (the obligation the kill stands for was already met).
+func (fl *Flow) KillEdgeUnless(fact string, c CondM, unless string) *Flow {
+	fl.specs = append(fl.specs, genSpec{fact: fact, kind: KillEdgeKind, cond: c, unless: unless})
 	fl.killable[fact] = true
 	return fl
 }
@@ -367,7 +377,7 @@ func (r *FnResult) condFacts(cond ssa.Value, branch bool, s *State) {
 	}
 	for _, sp := range r.fl.specs {
 		if sp.kind == KillEdgeKind {
-			if ok, neg := sp.cond(cond); ok && branch != neg {
+			if ok, neg := sp.cond(cond); ok && branch != neg && !(sp.unless != "" && s.has(sp.unless)) {
 				s.del(sp.fact)
 			}
 		}
